@@ -171,6 +171,9 @@ def _worker(job):
             opts = sweep_mod.config(rng, profile, idx) + (more_options(rng) if "more_opts" in want else [])
         data = netgen.serialize(net)
         out.update(desc=net.describe(), opts=opts, src_ops=[o.kind for o in net.ops])
+        import netgen_ext
+
+        out["src_tags"] = netgen_ext.source_tags(net)
         res = pipeline.compile_net(data, opts, name=f"n{idx}")
         out.update(status=res.status, exc=(type(res.exc).__name__ + ": " + str(res.exc))[:300] if res.exc is not None else "",
                    tb=res.tb[-1500:], ret=res.ret, exc_site=exc_site(res.tb, res.exc))
